@@ -21,12 +21,17 @@ import (
 // revision of an attempt whose storage transaction has not finished.
 func (w *world) installMonitor() {
 	inflight := map[string]uint64{} // thread -> issued revision not yet resolved
+	// every event the monitor's predicate depends on is a mark, so that their relative order is part
+	// of the state fingerprint and the state cache stays sound for this oracle
 	vatomic.AddHook = func(_ unsafe.Pointer, v uint64) {
+		vrt.Mark()
 		inflight[vrt.CurName()] = v
 	}
+	vatomic.StoreU64Hook = func(_ unsafe.Pointer, _ uint64) { vrt.Mark() }
 	prevStore := vatomic.StoreHook
 	vatomic.StoreHook = func(v interface{}) {
 		prevStore(v)
+		vrt.Mark()
 		if we, ok := v.(*common.WatchEvent); ok && we != nil {
 			// the attempt has published its outcome: resolved
 			if inflight[vrt.CurName()] == we.Revision {
@@ -35,6 +40,7 @@ func (w *world) installMonitor() {
 		}
 	}
 	w.kv.OnCommitDone = func(b *hx.BatchRec) {
+		vrt.Mark()
 		for _, o := range b.Ops {
 			if _, rev, err := hx.Coder.Decode(o.Key); err == nil && rev != 0 && o.Kind == "put" && inflight[b.Thread] == rev {
 				delete(inflight, b.Thread)
@@ -96,7 +102,7 @@ func (c c04Cfg) name() string {
 }
 
 func c04Scenario(c c04Cfg) *mc.Scenario {
-	return &mc.Scenario{Name: c.name(), NoCache: true, Body: func(x *mc.X) {
+	return &mc.Scenario{Name: c.name(), Body: func(x *mc.X) {
 		w := newWorld(hx.Mem, 16)
 		defer w.close()
 		// initial: /r/live exists (for updates / deletes / duplicate creates), /r/t<i> free for creates
@@ -289,11 +295,19 @@ func init() {
 					return mc.SchedPlan{Class: "sequential+faults", Bounds: []int{0}}
 				}
 				p := mc.SchedPlan{Class: fmt.Sprintf("concurrent/%d", len(cfg.threads)), Bounds: []int{0, 1}}
+				if cfg.faultAt >= 0 {
+					p.Class += "+fault"
+				}
+				nreq := 0
+				for _, t := range cfg.threads {
+					nreq += len(t)
+				}
 				if c.Tier == "thorough" {
 					p.Bounds = []int{0, 1, 2}
 					p.Shard = true
-				} else if len(cfg.threads) == 2 && len(cfg.threads[0]) == 1 {
-					p.Bounds = []int{0, 1, 2}
+				} else if nreq > 2 {
+					p.Bounds = []int{0}
+					p.Shard = true
 				}
 				return p
 			})
